@@ -187,6 +187,47 @@ def _ed(acc, name="ParamsEd25519"):
     acc.sample({"set": name, "clauses": ["field", "L prime", "B", "L*B=0", "#E=8L certificate", "M,N,S"]})
 
 
+def _concurrent_first_use(task):
+    """a NEW parameter-set object over a shipped group whose M, N, S are first used by two threads at once: all schedules with
+    at most 1 (quick) / 2 (thorough) preemptions at line granularity - the constants must come out as published whatever the schedule"""
+    name, bound = task
+    from .. import sched
+    acc = Acc()
+    L = T.lib()
+    inst, why = T.try_get(name)
+    if inst is None:
+        return acc
+    froz = golden.load()["MNS"][name]
+    n = [0]
+    # which constants each thread touches first decides which schedules can go wrong: three access patterns
+    for pat in ((("S",), ("M", "N")), (("N", "S"), ("M",)), (("M", "N", "S"), ("S", "N", "M"))):
+        want = [("ok", tuple(froz[k] for k in pat[0])), ("ok", tuple(froz[k] for k in pat[1]))]
+
+        def make(pat=pat):
+            P = L.params._Params(inst.group)
+            return [lambda: tuple(getattr(P, k).to_bytes().hex() for k in pat[0]),
+                    lambda: tuple(getattr(P, k).to_bytes().hex() for k in pat[1])]
+
+        for b in make():
+            b()
+
+        def on_result(res, run, want=want, pat=pat):
+            n[0] += 1
+            acc.n(transitions=len(run.points))
+            if res != want:
+                acc.violation("C18/%s/constants-after-concurrent-first-use" % name,
+                              {"what": "M, N, S of a new parameter set differ from the published constants when two threads make the first use of it (access pattern %s)" % (pat,),
+                               "replay": {"fn": "clause", "set": name, "clause": "constants-after-concurrent-first-use"}, "expected": want, "observed": res})
+        try:
+            sched.explore(make, bound, T.PKG, on_result)
+        except sched.Divergence as e:
+            acc.note("%s: schedule replay diverged in the concurrent-first-use exploration (%s)" % (name, e))
+    acc.n(states=n[0], traces=n[0])
+    acc.seen((name, "concurrent-first-use", n[0] > 0))
+    acc.extra.setdefault("concurrent_first_use_schedules", {})[name] = n[0]
+    return acc
+
+
 def _ctor_task(task):
     p, q = task
     grp = T.lib().groups.IntegerGroup
@@ -228,6 +269,9 @@ def run(tier, seed):
             if (p - 1) % q == 0 and numth.is_prime_trial(q):
                 tasks.append((p, q))
     core.pmerge(_ctor_task, tasks, acc)
+    # integer sets only: their derivation is a handful of source lines (pow() is one step); the Ed25519 try-and-increment loop is
+    # tens of thousands of line events per element and is left to C16's thread harnesses on toy groups
+    core.pmerge(_concurrent_first_use, [("Params1024", 1)] if tier == "quick" else [("Params1024", 2), ("Params2048", 2), ("Params3072", 1)], acc)
     return acc
 
 
